@@ -313,6 +313,11 @@ def fill(case, cache_dir, grid):
                 f.write('not a tile')
             set_mtime(p, e['t'])
         paths[i] = p
+    if case.get('dir_t') is not None:
+        # the directories get a time of their own (a tile can be newer than its directory: touched, restored with its
+        # time, rewritten in place); what is removed must depend on the time of each file only
+        for dirpath, dirnames, filenames in os.walk(cache_dir, topdown=False):
+            set_mtime(dirpath, case['dir_t'])
     return paths
 
 
@@ -428,6 +433,19 @@ def run_impl(ctx, case, interrupt_at=None):
     link = any(e.get('link') is not None for e in case['entries'])
     cache = make_cache(b, cache_dir, grid, link)
     vanish = set(p for e, p in zip(case['entries'], paths) if e.get('vanish'))
+    if case.get('slow_first_batch'):
+        # schedule: the worker needs longer for its first batch than the 5 s the walker waits for a free queue slot
+        # (slow storage); the marker file makes it the first batch only, also across the fork of the worker
+        marker = os.path.join(root, 'first-batch-done')
+        fast_remove = cache.remove_tile
+
+        def slow_remove(tile, *a, **kw):
+            if not os.path.exists(marker):
+                open(marker, 'w').close()
+                time.sleep(case['slow_first_batch'])
+            return fast_remove(tile, *a, **kw)
+
+        cache.remove_tile = slow_remove
     tm = TileManager(grid, cache, [], 'png', locker=TileLocker(os.path.join(root, 'locks'), 10, 'c12'),
                      meta_size=tuple(case['meta']))
     tasks = []
@@ -884,6 +902,8 @@ def gen_case(rng, backend=None, grid=None, force=None):
             'entries': entries, 'concurrency': rng.choice([1, 1, 2])}
     if tz:
         case['tz'] = tz
+    if b.startswith('file:') and rng.random() < 0.6:
+        case['dir_t'] = T + rng.choice([-400, -40, -8, 8])
     return case
 
 
@@ -915,7 +935,7 @@ def finding_cases():
     return out
 
 
-def fixed_cases():
+def fixed_cases(quick=True):
     """Boundary cases, always run (after the corpus)."""
     T = 40 * Q
     out = []
@@ -959,6 +979,23 @@ def fixed_cases():
                             'task': {'levels': [2], 'T': 30 * H, 'all': False, 'complete': complete, 'cov': [0, 0, 1024, 1024]},
                             'entries': [{'kind': 'tile', 'dim': 0, 'l': 2, 'x': i, 'y': 1, 't': 30 * H + d * H}
                                         for i, d in enumerate((-6, -1, 1, 3))]})
+    # a slow first batch: the bounded queue between walker and worker stays full for more than 5 s (Queue.Full with
+    # a living worker); every batch has to be handed over all the same
+    for b in (['file:tc'] if quick else ['file:tc', 'sqlite', 'file:quadkey']):
+        out.append({'backend': b, 'grid': 'g3', 'meta': [1, 1], 'guarded': True, 'concurrency': 1, 'slow_first_batch': 6.5,
+                    'task': {'levels': [2], 'T': T, 'all': False, 'complete': False, 'cov': [0, 0, 1024, 768]},
+                    'entries': [{'kind': 'tile', 'dim': 0, 'l': 2, 'x': x, 'y': y, 't': T - 40}
+                                for x, y in ((0, 0), (1, 0), (2, 1), (3, 1), (0, 2), (2, 2))] +
+                               [{'kind': 'tile', 'dim': 0, 'l': 2, 'x': 1, 'y': 3, 't': T - 40},
+                                {'kind': 'tile', 'dim': 0, 'l': 2, 'x': 1, 'y': 1, 't': T + 40}]})
+    # a newer tile in a directory that is older than the remove time
+    for b in ('file:tc', 'file:tms'):
+        out.append({'backend': b, 'grid': 'g3', 'meta': [2, 2], 'guarded': True, 'concurrency': 1, 'dir_t': T - 400,
+                    'task': {'levels': [2], 'T': T, 'all': False, 'complete': True, 'cov': [0, 0, 1024, 1024]},
+                    'entries': [{'kind': 'tile', 'dim': 0, 'l': 2, 'x': 1, 'y': 1, 't': T + 40},
+                                {'kind': 'tile', 'dim': 0, 'l': 2, 'x': 1, 'y': 2, 't': T - 40},
+                                {'kind': 'tile', 'dim': 0, 'l': 2, 'x': 2, 'y': 2, 't': T},
+                                {'kind': 'tile', 'dim': 0, 'l': 1, 'x': 0, 'y': 0, 't': T - 40}]})
     return out
 
 
@@ -1124,7 +1161,7 @@ def run_cases(ctx, cases, tag, budget=None):
 def run(ctx):
     rng = ctx.rng
     # 1. corpus + fixed witnesses
-    run_cases(ctx, load_corpus() + fixed_cases(), 'fixed')
+    run_cases(ctx, load_corpus() + fixed_cases(ctx.quick), 'fixed')
     # 2. generated
     cases = []
     for b in BACKENDS:                       # every backend x complete extent or coverage x remove_before / remove_all
